@@ -378,6 +378,35 @@ def _drive_model(mon, case, dicts, label=""):
     _same(mon, full2, full, "reloaded-equals-original", model="reloaded")
     _cmp(mon, full2, exp, "reloaded-vs-oracle", **det)
     routes(fresh, "reloaded")
+
+    # ... and into an instance that was freshly constructed *from another table* (same vocabulary and start symbol):
+    # whatever that instance held before - buffers of the same length and dtype included - must be gone afterwards
+    N = len(dicts)
+    if N >= 2:
+        seen, thin = set(), {}
+        for k, v in dicts[-1].items():
+            if k[:-1] not in seen:
+                seen.add(k[:-1])
+                thin[k] = v
+        other = [dict(d) for d in dicts[:-1]] + [thin]
+        kind = "same_lower_orders_thinned_top" if len(thin) < len(dicts[-1]) else "same_table"
+    else:
+        other = [{0: -1.0}]
+        kind = "unigram_stub"
+    with warnings.catch_warnings():
+        warnings.simplefilter("ignore")
+        used = LM(V, sos, other)
+    before = (tuple(used.offsets.shape), used.offsets.dtype, int(used.max_direct_descendants))
+    mon.lib("load_state_dict", used.load_state_dict, sd)
+    mon.cls("reload_receiver:" + kind)
+    if before[:2] == (tuple(lm.offsets.shape), lm.offsets.dtype):
+        mon.stat("reload_receiver_held_offsets_of_same_shape_and_dtype")
+        if before[2] != int(lm.max_direct_descendants):
+            mon.stat("reload_receiver_had_another_fan_out")
+    full3 = mon.lib("call_full", used, hist)
+    _same(mon, full3, full, "reloaded-equals-original", model="reloaded into an instance built from another table",
+          receiver=kind)
+    _cmp(mon, full3, exp, "reloaded-vs-oracle", route=label, receiver=kind)
     return nontrivial
 
 
